@@ -41,7 +41,8 @@ CHECKS = {
         "shifted perpendicular rows) modes; Pinhole1D/Slit1D constructors hand the weight builder an increasing grid with |q| >= 0.02 "
         "q_min, request theory at strictly positive q only, sigma >= 1e-8, same widths and window for extension and weights; "
         "pinhole_extend_q / slit_extend_q span EVERY point's window (symbolic number of points); apply_resolution_matrix is the weighted "
-        "sum; 2-D ring weights >= 0.  'Sum to one / flat unchanged / scale and background linear' are instances of Lean lemmas "
+        "sum; 2-D ring weights >= 0; DataMixin._interpret_data builds Pinhole1D(x[index], dx[index]) iff SOME selected point has dx > 0 "
+        "(else Perfect1D), Slit1D with the selected dxl/dxw (symbolic number of points, mask-select axioms).  'Sum to one / flat unchanged / scale and background linear' are instances of Lean lemmas "
         "(lemmas/Sas.lean) whose hypotheses are those obligations.",
    note="erf/exp/sqrt uninterpreted with instantiated monotonicity; reals; row/column independence (1-2 data points enumerated); "
         "linear/geometric_extrapolation and the scalar/None width conventions only in the bounded sweep (5 grids x widths x slit modes x 4 "
@@ -123,7 +124,7 @@ CHECKS = {
         "call_kernel, DataMixin._calc_theory (background added after smearing, 0 for sesans) and bumps create_parameters are "
         "executed symbolically; 'unknown name => TypeError, nothing else raises', 'exactly the parameter's own keys are consumed', "
         "'orientation inactive in 1-D', 'theory = apply(kernel at background 0) + background' and the frames are discharged by z3.",
-   note="[also under contract: SasviewModel.setParam (26 legal/illegal names: exactly the entry is set, unknown or misspelt names raise and leave no stray key), SasviewModel.set_dispersion (only dispersible names accepted; others raise and add no entry) and the Iq/Iqxy convenience functions (q and resolution arguments reach the documented slots of the data object)] weights.get_weights, make_kernel_args, the kernel and resolution.apply replaced by their contracts; bumps Parameter is a "
+   note="[also under contract: SasviewModel.setParam (26 legal/illegal names: exactly the entry is set, unknown or misspelt names raise and leave no stray key), DataMixin._interpret_data (index = limits & mask == 0 & not NaN for every point of a 1-D or 2-D data set of symbolic length, Iq/dIq the selected data, Pinhole2D built on that index), SasviewModel.set_dispersion (only dispersible names accepted; others raise and add no entry) and the Iq/Iqxy convenience functions (q and resolution arguments reach the documented slots of the data object)] weights.get_weights, make_kernel_args, the kernel and resolution.apply replaced by their contracts; bumps Parameter is a "
         "stub contract (bumps is not installed); SasviewModel object plumbing and numerical equality of the interfaces end to end "
         "are not under contract (only the shared mesh/theory functions are)",
    technique=TECH + "Python AST -> VCs -> z3 with finite-map inputs; witnesses replayed on get_mesh/_pop_par_weights",
@@ -173,8 +174,10 @@ CHECKS = {
         "identity (normal form modulo sin^2+cos^2=1, sqrt^2, exp laws) for symbolic node indices, F2=F1^2 exactly for symmetric "
         "shapes; every 'equivalent volume sphere' mode satisfies M_4PI_3 R^3 = form_volume (cbrt^3=x); Kernel.Fq/Iq normalisation "
         "and the amplitude kernels (F,F^2 interleaving, shell-volume slot, chunk restart) by the C01 contracts.",
-   note="[also: radius_effective has no zero divisor for positive size parameters in every selectable mode (cvc safety obligations, 120 discharged, superball undecided and not claimed); Kernel.Fq results do not alias the reused buffer] the inequality itself follows from the structure by the weighted Cauchy-Schwarz lemma (Lean) with the measured node-weight "
-        "sum; models whose Fq leaves the subset (vector parameters, products of sums, do-while) get a bounded numeric stand-in "
+   note="[also: radius_effective has no zero divisor for positive size parameters in every selectable mode (cvc safety obligations, 120 discharged, superball undecided and not claimed); Kernel.Fq results do not alias the reused buffer] the inequality itself follows from the structure by the weighted Cauchy-Schwarz lemma (Lean) with the node weights "
+        "c_n = s1^2/s2 evaluated over every node of the quadrature tables in the generated source (SUM c_n = 1, c_n >= 0: ground "
+        "obligations, float64); inner quadratures in pure model-local helpers enter Fq by their contract (frame checked on the AST); "
+        "models whose Fq leaves the subset (vector parameters, do-while) get a bounded numeric stand-in "
         "(listed, not counted); q->0 equality, positivity and finiteness only through the replay grid",
    technique=TECH + "clang JSON AST -> Sigma-normal forms -> polynomial identities / z3; replay grid on call_Fq",
    design="DESIGN.md 6 C14"),
